@@ -558,7 +558,7 @@ fn handle_a2ml(
             {
                 bytepos -= 1;
             }
-            if filebytes[bytepos - 1] == b'\r' && filebytes[bytepos - 1] == b'\n' {
+            if filebytes[..bytepos].ends_with(b"\r\n") {
                 bytepos -= 2;
             } else if filebytes[bytepos - 1] == b'\n' {
                 bytepos -= 1;
